@@ -59,6 +59,21 @@ func MarshalFile(f *ast.File, addNewLine bool) []byte {
 	docs := make([]string, 0, len(f.Docs))
 
 	for _, doc := range f.Docs {
+		// a document without content ("", a lone "---") has no body and
+		// (*ast.DocumentNode).String would dereference it
+		if doc.Body == nil {
+			parts := []string{}
+			if doc.Start != nil {
+				parts = append(parts, doc.Start.Value)
+			}
+			if doc.End != nil {
+				parts = append(parts, doc.End.Value)
+			}
+			docs = append(docs, strings.Join(parts, "\n"))
+
+			continue
+		}
+
 		docs = append(docs, doc.String())
 	}
 
